@@ -545,6 +545,8 @@ def _nongauss_prefix(rng, backend, n):
 
 def gen_cond(rng, backend, i=0):
     n = rng.randint(2, 3) if backend == "bosonic" else rng.randint(2, 4)
+    if i % 7 == 6:
+        n = 1   # the measured mode is the whole register
     d = {"check": "hard", "fam": "cond", "backend": backend, "n": n, "pre": _nongauss_prefix(rng, backend, n)}
     kinds = [("homodyne", False), ("heterodyne", False), ("homodyne", True), ("heterodyne", True)] + ([("threshold", False)] if backend == "bosonic" else [])
     d["kind"], want_sel = kinds[i % len(kinds)]
@@ -555,7 +557,7 @@ def gen_cond(rng, backend, i=0):
         d["select"] = [round(rng.uniform(-0.8, 0.8), 3), round(rng.uniform(-0.6, 0.6), 3)]
     others = [m for m in range(n) if m != d["target"]]
     # a history with deleted modes: possibly only the measured mode survives
-    d["deleted"] = sorted(rng.sample(others, rng.randint(1, len(others)))) if rng.random() < 0.3 else []
+    d["deleted"] = sorted(rng.sample(others, rng.randint(1, len(others)))) if (others and rng.random() < 0.3) else []
     return d
 
 
@@ -793,8 +795,13 @@ def eval_prepf(d):
 
 def gen_mfock(rng, backend, i=0):
     n = 3
-    nums = rng.sample([0, 1, 2], 3)
-    pre = [["Fock", [nums[i]], [i], False] for i in range(n)]
+    if i % 4 < 2:
+        # number states through an interferometer (exact below the cutoff; a preparation makes the representation mixed)
+        nums = rng.sample([0, 1, 2], 3)
+        pre = [["Fock", [nums[j]], [j], False] for j in range(n)]
+    else:
+        # gates only: a pure representation stays pure, about one photon per mode so that non-zero outcomes occur
+        pre = [["Dgate", [round(rng.uniform(0.6, 1.0), 3), round(rng.uniform(-2, 2), 3)], [j], False] for j in range(n)]
     for _ in range(rng.randint(1, 3)):
         a, b = rng.sample(range(n), 2)
         pre.append(["BSgate", [round(rng.uniform(0.3, 1.2), 3), round(rng.uniform(-1, 1), 3)], [a, b], False])
@@ -813,14 +820,13 @@ def eval_mfock(d):
         # a post-selected pattern with appreciable probability, preferably with different values on different modes
         probs = np.real(np.einsum("".join("%s%s" % (chr(97 + i), chr(97 + i)) for i in range(n)) + "->" + "".join(chr(97 + i) for i in range(n)),
                                   rho))
-        marg = probs.sum(axis=tuple(m for m in range(n) if m not in modes)).transpose(np.argsort(np.argsort(modes))) if len(modes) < n else probs.transpose(np.argsort(np.argsort(modes)))
-        # marg axes are now in the order of `modes`... built from ascending axes: undo below
         cands = []
         asc = sorted(modes)
         pm = probs.sum(axis=tuple(m for m in range(n) if m not in modes)) if len(modes) < n else probs
+        floor = max(0.3 * float(pm.max()), 1e-9)
         for idx in _it.product(range(cutoff), repeat=len(modes)):
             p = pm[idx]
-            if p > 0.03:
+            if p >= min(0.03, floor):
                 cands.append((len(set(idx)), idx, p))
         cands.sort(key=lambda c: (-c[0], c[1]))
         best = [c for c in cands if c[0] == cands[0][0]]
@@ -865,7 +871,7 @@ def _x_bra(x, phi, cutoff, hbar=2.0):
 
 
 def gen_hfock(rng, backend, i=0):
-    n = rng.randint(2, 3)
+    n = rng.randint(2, 3) if i % 6 != 5 else 1
     d = {"check": "hard", "fam": "hfock", "backend": backend, "n": n, "cutoff": 8 if n == 2 else 7, "pre": _fock_prefix(rng, n), "target": rng.randrange(n)}
     d["angle"] = rng.choice([0.0, _math.pi / 2, -_math.pi / 2]) if rng.random() < 0.25 else round(rng.uniform(-_math.pi, _math.pi), 3)
     d["select"] = round((1 if i % 2 else -1) * rng.uniform(0.2, 0.9), 3) if i % 3 != 2 else None
@@ -1227,10 +1233,55 @@ def eval_bmodes(d):
     return None
 
 
+# ---- msgate (single-shot measurement-based squeezing: the ancilla is added to / deleted from a several-weight state mid-circuit) ----
+
+def gen_msgate(rng, backend, i=0):
+    n = rng.randint(1, 3)
+    return {"check": "hard", "fam": "msgate", "backend": "bosonic", "n": n, "pre": _nongauss_prefix(rng, "bosonic", n), "target": rng.randrange(n),
+            "r": round(rng.choice([-1, 1]) * rng.uniform(0.1, 0.5), 3), "phi": round(rng.uniform(-_math.pi, _math.pi), 3),
+            "r_anc": round(rng.uniform(0.6, 1.4), 3), "eta": rng.choice([1.0, 0.95, round(rng.uniform(0.8, 1.0), 3)])}
+
+
+def eval_msgate(d):
+    """MSgate(avg=False) on mode k must equal the documented circuit written out with an explicit ancilla mode and the reported
+    ancilla outcome: rotate, squeezed ancilla, beam splitter, loss, homodyne on the ancilla, feed-forward displacement, rotate."""
+    n, k, pre = d["n"], d["target"], d["pre"]
+    r, phi, r_anc, eta = d["r"], d["phi"], d["r_anc"], d["eta"]
+    res = _engine("bosonic").run(_build(n, pre, lambda q: _ops.MSgate(r, phi, r_anc, eta, avg=False) | q[k]))
+    val = float(np.real(np.ravel(res.ancillae_samples[k])[0]))
+    got = _mixture(res.state)
+    if got[1].shape[1] != 2 * n:
+        return "msgate:bosonic:single-shot:wrong-number-of-modes"
+    if r < 0:
+        phi, r = phi + np.pi, abs(r)
+    theta = _math.acos(_math.exp(-r))
+    ff = -_math.tan(theta) / _math.sqrt(2 * 2 * eta) * val
+
+    def tail(q):
+        _ops.Rgate(-phi / 2) | q[k]
+        _ops.Sgate(r_anc, 0) | q[n]
+        _ops.BSgate(theta, 0) | (q[k], q[n])
+        _ops.LossChannel(eta) | q[n]
+        _ops.Rgate(np.pi / 2) | q[n]
+        _ops.MeasureHomodyne(0, select=val) | q[n]
+        _ops.Dgate(abs(ff), np.pi / 2 if ff >= 0 else -np.pi / 2) | q[k]
+        _ops.Rgate(phi / 2) | q[k]
+    ref = _mixture(_engine("bosonic").run(_build(n + 1, pre, tail)).state)
+    ref = _mix_reduce(ref, list(range(n)))
+    if _mix_delta(ref, got) > 5e-3:
+        others = [m for m in range(n) if m != k]
+        if others and _mix_delta(_mix_reduce(ref, others), _mix_reduce(got, others)) > 5e-3:
+            return "msgate:bosonic:single-shot:rest-not-conditional-state"
+        if others and _mix_delta(_mix_reduce(ref, [k]), _mix_reduce(got, [k])) <= 5e-3:
+            return "msgate:bosonic:single-shot:correlations-with-rest"
+        # only the target's own state differs: not this property's clause (C01 compares the action on the target)
+    return None
+
+
 # ---- driver ---------------------------------------------------------------------------------------------------------------
 
 HARD = {"cond": (gen_cond, eval_cond), "prepg": (gen_prepg, eval_prepg), "prepf": (gen_prepf, eval_prepf), "mfock": (gen_mfock, eval_mfock),
-        "hfock": (gen_hfock, eval_hfock), "hist": (gen_hist, eval_hist), "bmodes": (gen_bmodes, eval_bmodes)}
+        "hfock": (gen_hfock, eval_hfock), "hist": (gen_hist, eval_hist), "bmodes": (gen_bmodes, eval_bmodes), "msgate": (gen_msgate, eval_msgate)}
 
 
 def search_hard(ctx):
@@ -1240,9 +1291,9 @@ def search_hard(ctx):
         # (5-mode Fock registers cost ~10 s of numba compilation for the new array ranks: thorough tier only)
         run_wide(ctx, backend, ctx.budget(12 if backend in ("gaussian", "bosonic") else 0, 120 if backend in ("gaussian", "bosonic") else 40))
     plan = ctx.budget(
-        {"gaussian": {"cond": 40, "prepg": 16, "hist": 10}, "bosonic": {"cond": 50, "prepg": 16, "hist": 10, "bmodes": 24},
-         "fock-pure": {"prepf": 10, "mfock": 8, "hfock": 5, "hist": 3}, "fock-mixed": {"prepf": 10, "mfock": 8, "hfock": 5, "hist": 3}},
-        {"gaussian": {"cond": 400, "prepg": 150, "hist": 100}, "bosonic": {"cond": 500, "prepg": 150, "hist": 100, "bmodes": 240},
+        {"gaussian": {"cond": 40, "prepg": 16, "hist": 10}, "bosonic": {"cond": 50, "prepg": 16, "hist": 10, "bmodes": 24, "msgate": 10},
+         "fock-pure": {"prepf": 10, "mfock": 16, "hfock": 6, "hist": 5}, "fock-mixed": {"prepf": 10, "mfock": 16, "hfock": 6, "hist": 5}},
+        {"gaussian": {"cond": 400, "prepg": 150, "hist": 100}, "bosonic": {"cond": 500, "prepg": 150, "hist": 100, "bmodes": 240, "msgate": 100},
          "fock-pure": {"prepf": 80, "mfock": 60, "hfock": 40, "hist": 25}, "fock-mixed": {"prepf": 80, "mfock": 60, "hfock": 40, "hist": 25}})
     for backend, fams in plan.items():
         for fam, cnt in fams.items():
@@ -1271,7 +1322,11 @@ _replay_v1 = replay
 def replay(ctx, data):
     d = data["data"]
     if d.get("check") == "hard":
-        sig = eval_sweep(d) if d["fam"] == "sweep" else HARD[d["fam"]][1](d)
+        try:
+            sig = eval_sweep(d) if d["fam"] == "sweep" else HARD[d["fam"]][1](d)
+        except Exception as e:   # cases recorded because the operation raised
+            print("raises:", repr(e))
+            return True
         print("violation:", sig)
         return bool(sig)
     return _replay_v1(ctx, data)
